@@ -1572,7 +1572,8 @@ add_error:
                 
                 switch ($1->kind) {
                 case NODE_NUMBER:
-                    if ($1->v.number == 0) {
+                    /* not for reals: 0 - 0.0 is +0.0, -(0.0) is -0.0 */
+                    if ($1->v.number == 0 && $3->type == TYPE_NUMBER) {
                         CREATE_UNARY_OP($$, F_NEGATE, $3->type, $3);
                     } else if ($3->kind == NODE_NUMBER) {
                         $$ = $1;
